@@ -14,10 +14,14 @@
    construction, JNT/JMP operands patched afterwards), Vm.run_one iterated, and finally
    Vm.eval (compile_runnable, put_lambda, the CALL/ENTER/RET/HALT wrapper).
 
-   Builtins are abstract: [builtin_ok b sem] says that builtin b, run on a stack holding
+   Builtins are abstract: [builtin_ok ob bsem b] says that builtin b, run on a stack holding
    n argument values and Argc n, pops them, extends heap and store only, and returns a
-   value representing [sem args]; it is PROVED below for the builtin `not` and for `cons`
-   is left to the packages that own them.                                              *)
+   value representing [bsem b args]; it is PROVED below for the real builtin `not`
+   (builtin_ok_not) and holds for every table with the empty specification.
+
+   Main results: compile_correct (induction over the fragment, code-placement form),
+   eval_fragment (Vm::eval reaches HALT with the reference value in %acc and sp/bp/ep
+   restored), halt_result_done (the final get_as_cell).                                  *)
 From Coq Require Import String Lia FMapPositive.
 From MW Require Import Model.Base Model.F64 Model.Num Model.Datum Model.TransformDef Model.Transform
   Model.VmTypes Model.Heap Model.Gc Model.VmBase Model.Compile Model.Vm
@@ -1944,3 +1948,19 @@ Qed.
 
 End Eval.
 Print Assumptions eval_fragment.
+
+(* the conversion of %acc at HALT (Heap::get_as_cell with the fuel [cell_fuel] of the model):
+   it yields the reference value as soon as that fuel covers the depth k of the value *)
+Lemma halt_result_done m r : vrep (acc m) r (hp m) (st m) ->
+  exists k, (k <= cell_fuel m)%nat ->
+    halt_result m = ROk (Done (rcell r)) (with_stack m tempty (sp m)).
+Proof.
+  intros V.
+  assert (H : exists k, forall f, (k <= f)%nat -> get_as_cell builtin_name (hp m) (st m) f (acc m) = Ok (rcell r)).
+  { destruct r as [c|b]; cbn [vrep rcell] in *.
+    - destruct V as [R _]. exact (R (hp m) (st m) (ext_refl _ _)).
+    - destruct V as (p & -> & A & C). exists 2%nat. intros f Hf.
+      destruct f as [|[|f]]; try lia. cbn [get_as_cell]. rewrite (heap_get_alloc _ _ A), C. reflexivity. }
+  destruct H as [k Hk]. exists k. intros Hle.
+  unfold halt_result, to_cell, as_cell, lift. rewrite (Hk _ Hle). reflexivity.
+Qed.
